@@ -13,6 +13,12 @@ def parse (t : List String) : Option Op :=
   | ["cserver", s, m] => some (.cserver (nat! s) (optNat m))
   | ["dserver", s] => some (.dserver (nat! s))
   | ["send", c, r, tag] => some (.send (nat! c) (nat! r) (nat! tag))
+  | ["qloan", c, l] => some (.qloan (nat! c) (nat! l))
+  | ["qsend", c, l, r, tag] => some (.qsend (nat! c) (nat! l) (nat! r) (nat! tag))
+  | ["qdrop", c, l] => some (.qdrop (nat! c) (nat! l))
+  | ["rloan", s, a, l] => some (.rloan (nat! s) (nat! a) (nat! l))
+  | ["rsend", s, l, tag] => some (.rsend (nat! s) (nat! l) (nat! tag))
+  | ["rdrop", s, l] => some (.rdrop (nat! s) (nat! l))
   | ["recvreq", s, a] => some (.recvreq (nat! s) (nat! a))
   | ["respond", s, a, tag] => some (.respond (nat! s) (nat! a) (nat! tag))
   | ["dactive", s, a] => some (.dactive (nat! s) (nat! a))
